@@ -15,6 +15,53 @@ from common import fmt
 MIN_TICK, MAX_TICK = -887272, 887272
 
 
+# ------------------------------------------------------------------------------------------ protocol reference (independent of /repo)
+# Uniswap v3 TickMath.getSqrtRatioAtTick, written from the protocol (v3-core/contracts/libraries/TickMath.sol): generators and oracles take the
+# sqrt price of a tick from here, never from the code under test.  `ref_selfcheck` ties this copy to the property text: the protocol's
+# boundary values and |value - sqrt(1.0001^t) * 2^96| within the bound C06 states, on every single-bit tick and both ends.
+_TICKMATH_FACTORS = (
+    0xFFFCB933BD6FAD37AA2D162D1A594001, 0xFFF97272373D413259A46990580E213A, 0xFFF2E50F5F656932EF12357CF3C7FDCC, 0xFFE5CACA7E10E4E61C3624EAA0941CD0,
+    0xFFCB9843D60F6159C9DB58835C926644, 0xFF973B41FA98C081472E6896DFB254C0, 0xFF2EA16466C96A3843EC78B326B52861, 0xFE5DEE046A99A2A811C461F1969C3053,
+    0xFCBE86C7900A88AEDCFFC83B479AA3A4, 0xF987A7253AC413176F2B074CF7815E54, 0xF3392B0822B70005940C7A398E4B70F3, 0xE7159475A2C29B7443B29C7FA6E889D9,
+    0xD097F3BDFD2022B8845AD8F792AA5825, 0xA9F746462D870FDF8A65DC1F90E061E5, 0x70D869A156D2A1B890BB3DF62BAF32F7, 0x31BE135F97D08FD981231505542FCFA6,
+    0x9AA508B5B7A84E1C677DE54F3E99BC9, 0x5D6AF8DEDB81196699C329225EE604, 0x2216E584F5FA1EA926041BEDFE98, 0x48A170391F7DC42444E8FA2)
+MIN_SQRT_RATIO, MAX_SQRT_RATIO = 4295128739, 1461446703485210103287273052203988822378723970342
+_REF_CACHE = {}
+
+
+def ref_sqrt_ratio_at_tick(tick: int) -> int:
+    if tick in _REF_CACHE:
+        return _REF_CACHE[tick]
+    a = abs(tick)
+    if a > MAX_TICK:
+        raise ValueError(tick)
+    ratio = 1 << 128
+    for i, f in enumerate(_TICKMATH_FACTORS):
+        if a & (1 << i):
+            ratio = (ratio * f) >> 128
+    if tick > 0:
+        ratio = ((1 << 256) - 1) // ratio
+    r = (ratio >> 32) + (1 if ratio % (1 << 32) else 0)
+    if len(_REF_CACHE) < 200000:
+        _REF_CACHE[tick] = r
+    return r
+
+
+def ref_selfcheck():
+    """the reference is the protocol's function: boundary values, and closeness to sqrt(1.0001^t) * 2^96 as C06 states it"""
+    if _REF_CACHE.get("checked"):
+        return
+    assert ref_sqrt_ratio_at_tick(0) == 1 << 96 and ref_sqrt_ratio_at_tick(MIN_TICK) == MIN_SQRT_RATIO and ref_sqrt_ratio_at_tick(MAX_TICK) == MAX_SQRT_RATIO
+    with decimal.localcontext() as c:
+        c.prec = 120
+        root = Decimal("1.0001").sqrt()
+        for t in [s * (1 << k) for k in range(20) for s in (1, -1)] + [MIN_TICK, MAX_TICK, 887271, -887271, 524287, -524289]:
+            ideal = root ** t * (1 << 96)
+            bound = 1 if t <= 0 else 1 + ideal * 8 * root ** t / (1 << 128)
+            assert abs(ref_sqrt_ratio_at_tick(t) - ideal) < bound, t
+    _REF_CACHE["checked"] = True
+
+
 def imports():
     import demeter  # noqa: F401  (sets decimal precision)
     from demeter import TokenInfo, Broker, MarketInfo
